@@ -379,11 +379,12 @@ pub fn gen_tbl(r: &mut Rng, tier: &str, emit: &mut dyn FnMut(String)) {
     // mixed into histories of ordinary entries
     {
         let variants: [(&str, &[&str]); 5] = [
-            ("madt", &["dflt/0", "dflt/1", "dflt/2", "dflt/3", "dflt/4", "dflt/5", "dflt/6", "dflt/7", "dflt/8", "GAS", "USER"]),
+            ("madt", &["dflt/0", "dflt/1", "dflt/2", "dflt/3", "dflt/4", "dflt/5", "dflt/6", "dflt/7", "dflt/8", "GAS", "USER",
+                       "MACRO", "MACRO", "MACRO", "MACRO"]),
             ("srat", &["dflt/10", "RA"]),
             ("hmat", &["dflt/11"]),
             ("pptt", &["dflt/12"]),
-            ("hest", &["dflt/20", "dflt/21", "dflt/22", "dflt/23", "dflt/24", "NOTIF25", "NOTIF26", "HUSER"]),
+            ("hest", &["dflt/20", "dflt/21", "dflt/22", "dflt/23", "dflt/24", "NOTIF25", "NOTIF26", "HUSER", "HMACRO", "HMACRO"]),
             // (no RQSC: `RQSC::add_controller` takes the Length growth from the controller's own length field,
             //  which `new` / `add_resource` maintain and a `Default` value leaves at 0 — DESIGN 17.7)
         ];
@@ -412,6 +413,8 @@ pub fn gen_tbl(r: &mut Rng, tier: &str, emit: &mut dyn FnMut(String)) {
                         let tok = match *v {
                             "GAS" => format!("dflt/40,{},{},{},{},{}/-/-/-", r.below(4), sc(r, 8), sc(r, 8), r.below(5), sc(r, 64)),
                             "USER" => format!("dflt/41,{},{},{}/-/-/-", sc(r, 8), sc(r, 16), sc(r, 64)),
+                            "MACRO" => { let k = r.range(1, 16) as usize; format!("dflt/45/{}/-/-", hex(&r.bytes(k))) }
+                            "HMACRO" => { let k = r.range(1, 16) as usize; format!("dflt/46/{}/-/-", hex(&r.bytes(k))) }
                             "HUSER" => format!("dflt/42,{},{},{}/-/-/-", sc(r, 8), sc(r, 16), sc(r, 64)),
                             "RA" => format!("dflt/10/-/-/{}", *r.pick(&["en", "pd=7", "pd=4096,en", "en,pd=1,pd=2"])),
                             "NOTIF25" => format!("dflt/25,{},{},{},{}/-/-/-", sc(r, 16), r.below(2), sc(r, 32), sc(r, 32)),
@@ -608,6 +611,8 @@ pub fn gen_ent(r: &mut Rng, tier: &str, emit: &mut dyn FnMut(String)) {
     // opaque entries standalone (C14 only: raw form = serialised form, byte-sum helper, six sinks, twice)
     for v in [0u64, 1, 2, 3, 4, 5, 6, 7, 8, 10, 11, 12, 20, 21, 22, 23, 24, 30] { emit(format!("dflt/{}/-/-/-", v)); }
     for (w, v) in [(8u64, 0u64), (8, 1), (8, 5), (16, 300), (32, 70000), (64, 0x1_0000_0000)] { emit(format!("dflt/43,{},{}/-/-/-", w, v)); }
+    // downstream `aml_as_bytes!` types of every size 1..=16, several byte patterns each
+    for k in 1..=16usize { for _ in 0..(if thorough { 50 } else { 6 }) { emit(format!("dflt/45/{}/-/-", hex(&(0..k).map(|i| (r.next() as u8) | ((i as u8) << 4) | 1).collect::<Vec<u8>>()))); } }
     for _ in 0..(if thorough { 2000 } else { 60 }) {
         emit(format!("dflt/40,{},{},{},{},{}/-/-/-", r.below(4), sc(r, 8), sc(r, 8), r.below(5), sc(r, 64)));
         emit(format!("dflt/41,{},{},{}/-/-/-", sc(r, 8), sc(r, 16), sc(r, 64)));
